@@ -321,6 +321,10 @@ fn judge(c: &Cfg, real: &[DrawObs], mirror: &[MirrorDraw], choices: &[u32], p: &
         let ro = RefOptions { maxdepth: maxd, mindepth: mind, max_energy_error: c.max_energy_error, dim: c.dim };
         let refr = match reference(&m.rec, &m.answers, &ro) {
             Ok(x) => x,
+            Err(crate::common::rnuts::RefErr::IllConditioned(..)) => {
+                p.count("ill_conditioned_histories", 1);
+                return true;
+            }
             Err(e) => {
                 viol("trajectory-differs-from-reference-nuts", format!("draw {d}: {e:?}"), p);
                 return false;
